@@ -26,41 +26,6 @@ transports) satisfies the `CipherOk` hypothesis of the channel theorems, for eve
 namespace Nx.L1
 open Nx Nx.Prudp Nx.Chan Nx.Crypto
 
-/-! ## RC4 at a position is xor with a key stream -/
-
-/-- the key-stream byte RC4 produces at position `p` under `key` -/
-def rc4Ks (key : Bytes) (p : Nat) : UInt8 := (rc4Next (rc4Skip p (rc4Ksa key))).1
-
-theorem rc4Skip_succ : ∀ (n : Nat) (st : Rc4), rc4Skip (n + 1) st = (rc4Next (rc4Skip n st)).2 := by
-  intro n
-  induction n with
-  | zero => intro st; rfl
-  | succ n ih => intro st; show rc4Skip (n + 1) (rc4Next st).2 = _; rw [ih]; rfl
-
-theorem rc4At_eq_xorAt (key : Bytes) : ∀ (d : Bytes) (pos : Nat), rc4At key pos d = xorAt (rc4Ks key) pos d := by
-  intro d
-  induction d with
-  | nil => intro pos; rfl
-  | cons x r ih =>
-    intro pos
-    have h := ih (pos + 1)
-    unfold rc4At at h ⊢
-    rw [rc4Skip_succ] at h
-    simp only [rc4Apply, xorAt]
-    rw [h]; rfl
-
-/-- the cipher of a substream of an endpoint meets the channel's cipher hypothesis, whatever the key -/
-theorem cipherOf_ok (c : Conn) (sub : Nat) : CipherOk (cipherOf c sub) := by
-  unfold cipherOf
-  cases c.cipherOn with
-  | false => exact ⟨fun _ _ => rfl, fun _ _ h => h⟩
-  | true =>
-    simp only [if_true]
-    have h := xorCipher_ok (rc4Ks ((c.relCiphers[sub]?.map StreamCipher.key).getD []))
-    refine ⟨fun p x => ?_, fun p x hx => ?_⟩
-    · simp only [rc4At_eq_xorAt]; exact h.dec_enc p x
-    · simp only [rc4At_eq_xorAt]; exact h.enc_ne p x hx
-
 /-- what the theorems assume of the connection's compression (none, or zlib): decompressing a compressed fragment returns
     it, and a non-empty fragment never compresses to the empty string. Both hold for the identity; for zlib they are
     assumptions on `zlib.compress` (which the model does not reproduce byte for byte) that the correspondence run validates
@@ -68,7 +33,6 @@ theorem cipherOf_ok (c : Conn) (sub : Nat) : CipherOk (cipherOf c sub) := by
 structure EnvLaws (env : Env) : Prop where
   round : ∀ b, env.decompress (env.compress b) = .ok b
   nonempty : ∀ b, b ≠ [] → env.compress b ≠ []
-  notclosed : ∀ b, env.decompress b ≠ .error .closed     -- what `decompress` raises is not the closed-resource error
 
 theorem wrap_ok (env : Env) (hl : EnvLaws env) (ci : Cipher) (h : CipherOk ci) : CipherOk (wrap env ci) := by
   refine ⟨fun p x => ?_, fun p x hx => ?_⟩
@@ -76,7 +40,7 @@ theorem wrap_ok (env : Env) (hl : EnvLaws env) (ci : Cipher) (h : CipherOk ci) :
   · exact h.enc_ne p _ (hl.nonempty x hx)
 
 theorem envLaws_of_id (env : Env) (hcomp : ∀ b, env.compress b = b) (hdec : ∀ b, env.decompress b = .ok b) : EnvLaws env :=
-  ⟨fun b => by rw [hcomp, hdec], fun b hb => by rw [hcomp]; exact hb, fun b => by rw [hdec]; exact fun h => by cases h⟩
+  ⟨fun b => by rw [hcomp, hdec], fun b hb => by rw [hcomp]; exact hb⟩
 
 /-- the call raised nothing, or only the closed-resource error (`process_reliable` on packets behind a released DISCONNECT) -/
 def R.closedOnly (r : R) : Bool :=
@@ -189,9 +153,9 @@ def Sys.run (env : Env) (sub : Nat) (s : Sys) (ops : List SysOp) : Sys := ops.fo
 /-- the hypotheses on a step: a `send` is either refused at once or runs to its end on a live link (an exception from the
     transport in the middle of a message is excluded: it leaves a hole in the id sequence — the connection is dead for
     the application that saw the exception), and likewise each single fragment and each ping; pings are followed on substream 0,
-    whose id counter they share (on other substreams they do not appear); a delivered copy is within half the id space of the receiver's release point,
-    and the only exception `process_reliable` may raise on it is the closed-resource one (with compression on, `decompress`
-    can raise; with compression off this conjunct holds by itself: `deliver_ok_without_compression`) -/
+    whose id counter they share (on other substreams they do not appear); a delivered copy is within half the id space of the receiver's release point
+    (nothing is assumed about exceptions in `process_reliable`: with compression on `decompress` can raise, but never on what
+    the window releases — `ChannelWell.released_well`) -/
 def Sys.opOk (env : Env) (sub : Nat) (s : Sys) : SysOp → Bool
   | .send now data =>
     !s.pend.isEmpty || sendRefused s.a sub || ((s.a.send env now data sub).err.isNone && (s.a.send env now data sub).c.linkUp)
@@ -204,14 +168,8 @@ def Sys.opOk (env : Env) (sub : Nat) (s : Sys) : SysOp → Bool
   | .disconnect now =>
     decide (s.a.state ≠ STATE_CONNECTED) ||
       (decide (sub = 0) && (s.a.disconnect env now).err.isNone && (s.a.disconnect env now).c.linkUp)
-  | .deliver j => (decide (j < s.nrel + 32768 ∧ s.nrel < j + 32768) || decide (s.net.length ≤ j)) &&
-      (match s.net[j]? with
-       | none => true
-       | some p => s.b.eof || (s.b.processReliable env p).closedOnly)
-  | .deliverH now j => (decide (j < s.nrel + 32768 ∧ s.nrel < j + 32768) || decide (s.net.length ≤ j)) &&
-      (match s.net[j]? with
-       | none => true
-       | some p => !(s.b.accepts env now p) || (s.b.processReliable env p).closedOnly)
+  | .deliver j => decide (j < s.nrel + 32768 ∧ s.nrel < j + 32768) || decide (s.net.length ≤ j)
+  | .deliverH _ j => decide (j < s.nrel + 32768 ∧ s.nrel < j + 32768) || decide (s.net.length ≤ j)
   | .inject _ p => decide (p.signature ≠ s.b.expectedSig env p)
   | .ackIn _ p => (hasAck p.flags || hasMultiAck p.flags) && decide (p.type ≠ TYPE_SYN) && decide (p.type ≠ TYPE_CONNECT)
   | .fireResend _ p _ => decide (p ∈ resendsOf s.a)
@@ -696,10 +654,19 @@ theorem getElem?_map_some {α β : Type} (f : α → β) (l : List α) (j : Nat)
     (l.map f)[j]? = some (f x) := by
   rw [List.getElem?_map, h]; rfl
 
+theorem deliver_window {s : Sys} {j : Nat} {p : Packet}
+    (hok : (decide (j < s.nrel + 32768 ∧ s.nrel < j + 32768) || decide (s.net.length ≤ j)) = true) (hj : s.net[j]? = some p) :
+    j < s.nrel + 32768 ∧ s.nrel < j + 32768 := by
+  have hlt : j < s.net.length := (List.getElem?_eq_some_iff.mp hj).1
+  simp only [Bool.or_eq_true, decide_eq_true_eq] at hok
+  rcases hok with h | h
+  · exact h
+  · omega
+
 /-- a copy of `net[j]` reaching `process_reliable` of the open receiver is the L2 arrival of `log[j]` -/
-theorem cpl_arrive (env : Env) (hnc : ∀ b, env.decompress b ≠ .error .closed) (sub : Nat) (ci : Cipher) (size : Nat) (s : Sys) (ch : Chan)
+theorem cpl_arrive (env : Env) (hround : ∀ b, env.decompress (env.compress b) = .ok b) (sub : Nat) (ci : Cipher) (size : Nat) (s : Sys) (ch : Chan)
     (j : Nat) (p : Packet) (h : Cpl sub ci size s ch) (hj : s.net[j]? = some p) (heof : s.b.eof = false)
-    (herr : ∀ e, (s.b.processReliable env p).err = some e → e = .closed) :
+    (hwell : Core.wellAt (wrap env ci) ch.r.core (ch.r.win.update (wireOf p).id (wireOf p)).2) :
     ∃ w, s.b.windows[p.substreamId]? = some w ∧ ch.s.log[j]? = some (wireOf p) ∧
       Cpl sub ci size { s with b := (s.b.processReliable env p).c, nrel := s.nrel + (w.update p.packetId p).2.length }
         { ch with r := ch.r.arrive (wrap env ci) (wireOf p) } := by
@@ -708,8 +675,15 @@ theorem cpl_arrive (env : Env) (hnc : ∀ b, env.decompress b ≠ .error .closed
   obtain ⟨w, hw, hgw, hwm⟩ := h.bwin
   refine ⟨w, by rw [hp.1]; exact hw, hlog, ?_⟩
   have hwl : sub < s.b.windows.length := (List.getElem?_eq_some_iff.mp hw).1
+  have hwell' : Core.wellAt (wrap env (cipherOf s.b sub)) ch.r.core ((w.update p.packetId p).2.map wireOf) := by
+    rw [h.bcipher]
+    have hum := update_map wireOf w p.packetId p
+    rw [hwm] at hum
+    have hid : (wireOf p).id = p.packetId := rfl
+    rw [hid, hum] at hwell
+    exact hwell
   obtain ⟨w', hw', hgw', harr, hrr, hwf', hci'⟩ :=
-    processReliable_refines env sub s.b w ch.r.core ch.r.nrel p h.bwf hwl hw hgw hp h.rrel heof hnc herr
+    processReliable_refines env sub s.b w ch.r.core ch.r.nrel p h.bwf hwl hw hgw hp h.rrel heof hround hwell'
   have hr : ch.r = ⟨w.map wireOf, ch.r.nrel, ch.r.core⟩ := by rw [hwm]
   rw [h.bcipher] at harr hrr hci'
   rw [← hr] at harr hrr
@@ -721,9 +695,10 @@ theorem cpl_arrive (env : Env) (hnc : ∀ b, env.decompress b ≠ .error .closed
     rw [harr, h.nrel]
 
 /-- **one step of the system is one step (or none) of the L2 channel, and the coupling is kept** -/
-theorem cpl_step (env : Env) (hnc : ∀ b, env.decompress b ≠ .error .closed)
-    (sub : Nat) (ci : Cipher) (size : Nat) (s : Sys) (ch : Chan) (op : SysOp)
-    (h : Cpl sub ci size s ch) (hok : s.opOk env sub op = true) :
+theorem cpl_step (env : Env) (hround : ∀ b, env.decompress (env.compress b) = .ok b)
+    (sub : Nat) (ci : Cipher) (size start : Nat) (s : Sys) (ch : Chan) (op : SysOp)
+    (h : Cpl sub ci size s ch) (hS : SndInv (wrap env ci) start ch.s) (hR : RcvInv (wrap env ci) start ch)
+    (hW : Core.wellAt (wrap env ci) core0 ch.s.log) (hok : s.opOk env sub op = true) :
     Cpl sub ci size (s.step env sub op) (stepOpt (wrap env ci) size ch (s.absOp env sub op)) ∧
     (∀ o, s.absOp env sub op = some o → Chan.opOk ch o = true) := by
   cases op with
@@ -982,17 +957,18 @@ theorem cpl_step (env : Env) (hnc : ∀ b, env.decompress b ≠ .error .closed)
           simp only [Sys.step, hj, hlog, heof, if_true, Receiver.arrive, hcl]
           exact h
         | false =>
-          have herr : ∀ e, (s.b.processReliable env p).err = some e → e = .closed := by
-            simp only [Sys.opOk, hj, heof, Bool.false_or, Bool.and_eq_true] at hok
-            exact (R.closedOnly_iff _).mp hok.2
-          obtain ⟨w, hw, hlog, hc⟩ := cpl_arrive env hnc sub ci size s ch j p h hj heof herr
+          have hlog0 : ch.s.log[j]? = some (wireOf p) := by rw [← h.log]; exact getElem?_map_some _ _ _ _ hj
+          have hwin := deliver_window hok hj
+          have hwell := released_well (wrap env ci) start ch j (wireOf p) hS hR hW hlog0 (by rw [← h.nrel]; exact hwin.1)
+            (by rw [← h.nrel]; exact hwin.2) (by rw [h.rrel.closed]; exact heof)
+          obtain ⟨w, hw, hlog, hc⟩ := cpl_arrive env hround sub ci size s ch j p h hj heof hwell
           simp only [Sys.step, hj, hlog, heof, Bool.false_eq_true, if_false, hw]
           exact hc
     · cases ho
-      simp only [Sys.opOk, Bool.and_eq_true] at hok
+      simp only [Sys.opOk] at hok
       simp only [Chan.opOk]
       rw [← h.nrel, ← h.log, List.length_map]
-      exact hok.1
+      exact hok
 
   | deliverH now j =>
     simp only [Sys.absOp]
@@ -1016,17 +992,18 @@ theorem cpl_step (env : Env) (hnc : ∀ b, env.decompress b ≠ .error .closed)
             have hst := h.beof he
             unfold Conn.accepts at hacc
             simp [hst] at hacc
-        have herr : ∀ e, (s.b.processReliable env p).err = some e → e = .closed := by
-          simp only [Sys.opOk, hj, hacc, Bool.not_true, Bool.false_or, Bool.and_eq_true] at hok
-          exact (R.closedOnly_iff _).mp hok.2
-        obtain ⟨w, hw, hlog, hc⟩ := cpl_arrive env hnc sub ci size s ch j p h hj heof herr
+        have hlog0 : ch.s.log[j]? = some (wireOf p) := by rw [← h.log]; exact getElem?_map_some _ _ _ _ hj
+        have hwin := deliver_window (show (decide (j < s.nrel + 32768 ∧ s.nrel < j + 32768) || decide (s.net.length ≤ j)) = true from hok) hj
+        have hwell := released_well (wrap env ci) start ch j (wireOf p) hS hR hW hlog0 (by rw [← h.nrel]; exact hwin.1)
+          (by rw [← h.nrel]; exact hwin.2) (by rw [h.rrel.closed]; exact heof)
+        obtain ⟨w, hw, hlog, hc⟩ := cpl_arrive env hround sub ci size s ch j p h hj heof hwell
         simp only [hlog, hw, if_true]
         refine ⟨hc, fun o ho => ?_⟩
         cases ho
-        simp only [Sys.opOk, Bool.and_eq_true] at hok
+        simp only [Sys.opOk] at hok
         simp only [Chan.opOk]
         rw [← h.nrel, ← h.log, List.length_map]
-        exact hok.1
+        exact hok
   | inject now p =>
     simp only [Sys.absOp, stepOpt, Sys.step]
     simp only [Sys.opOk, decide_eq_true_eq] at hok
@@ -1196,6 +1173,7 @@ structure Good (env : Env) (sub : Nat) (ci : Cipher) (size start : Nat) (s : Sys
   cpl : Cpl sub ci size s ch
   snd : SndInv (wrap env ci) start ch.s
   rcv : RcvInv (wrap env ci) start ch
+  well : Core.wellAt (wrap env ci) core0 ch.s.log
   tim : TimersOk sub s
 
 theorem good_cipher {env : Env} (hl : EnvLaws env) {sub : Nat} {ci : Cipher} {size start : Nat} {s : Sys} {ch : Chan}
@@ -1225,14 +1203,18 @@ theorem good_step (env : Env) (hl : EnvLaws env)
     (h : Good env sub ci size start s ch) (hok : s.opOk env sub op = true) :
     Good env sub ci size start (s.step env sub op) (stepOpt (wrap env ci) size ch (s.absOp env sub op)) ∧
     Chan.runOk (wrap env ci) size ch (s.absOp env sub op).toList = true := by
-  obtain ⟨hc, hop⟩ := cpl_step env hl.notclosed sub ci size s ch op h.cpl hok
+  obtain ⟨hc, hop⟩ := cpl_step env hl.round sub ci size start s ch op h.cpl h.snd h.rcv h.well hok
   have hrun : Chan.runOk (wrap env ci) size ch (s.absOp env sub op).toList = true := by
     cases ho : s.absOp env sub op with
     | none => rfl
     | some o => simp [Chan.runOk, hop o ho]
   have hinv := inv_run (wrap env ci) (good_cipher hl h) size hsz start (s.absOp env sub op).toList ch h.snd h.rcv hrun
   rw [run_toList] at hinv
-  exact ⟨⟨hc, hinv.1, hinv.2, timers_step env sub s op h.tim hok⟩, hrun⟩
+  have hwell : Core.wellAt (wrap env ci) core0 (stepOpt (wrap env ci) size ch (s.absOp env sub op)).s.log := by
+    cases ho : s.absOp env sub op with
+    | none => exact h.well
+    | some o => exact logWell_step (wrap env ci) size start ch o h.snd h.well
+  exact ⟨⟨hc, hinv.1, hinv.2, hwell, timers_step env sub s op h.tim hok⟩, hrun⟩
 
 /-- **every run of the two-endpoint system is a run of the L2 channel** that satisfies the channel's half-window
     hypothesis, and the coupling holds at its end -/
@@ -1253,57 +1235,14 @@ theorem sys_refines (env : Env) (hl : EnvLaws env)
     rw [run_append, runOk_append, run_toList, hr1, Bool.true_and]
     exact ⟨hg2, hr2⟩
 
-/-- the step hypotheses without the "raises at most the closed-resource error" conjunct of a delivery -/
-def Sys.opOk0 (env : Env) (sub : Nat) (s : Sys) : SysOp → Bool
-  | .deliver j => decide (j < s.nrel + 32768 ∧ s.nrel < j + 32768) || decide (s.net.length ≤ j)
-  | .deliverH _ j => decide (j < s.nrel + 32768 ∧ s.nrel < j + 32768) || decide (s.net.length ≤ j)
-  | op => s.opOk env sub op
-
-def Sys.runOk0 (env : Env) (sub : Nat) : Sys → List SysOp → Bool
-  | _, [] => true
-  | s, op :: ops => s.opOk0 env sub op && Sys.runOk0 env sub (s.step env sub op) ops
-
-/-- **with compression off that conjunct holds by itself** (more generally: whenever `decompress` cannot fail): in a coupled
-    state, `process_reliable` on a packet of the log raises at most the closed-resource error -/
+/-- when `decompress` cannot fail (compression off), `process_reliable` on a packet of the log raises at most the
+    closed-resource error, in every coupled state -/
 theorem deliver_ok_without_compression (env : Env) (hdec : ∀ b, ∃ x, env.decompress b = .ok x) {sub : Nat} {ci : Cipher}
     {size : Nat} {s : Sys} {ch : Chan} (h : Cpl sub ci size s ch) (j : Nat) (p : Packet) (hj : s.net[j]? = some p) :
     (s.b.processReliable env p).closedOnly = true := by
   obtain ⟨w, hw, hgw, _⟩ := h.bwin
   exact (R.closedOnly_iff _).mpr
     (processReliable_closedOnly_of_id env hdec sub s.b w p h.bwf hw hgw (h.netgood p (List.mem_of_getElem? hj)))
-
-theorem opOk_of_opOk0 (env : Env) (hdec : ∀ b, ∃ x, env.decompress b = .ok x) {sub : Nat} {ci : Cipher}
-    {size : Nat} {s : Sys} {ch : Chan} (h : Cpl sub ci size s ch) (op : SysOp) (hok : s.opOk0 env sub op = true) :
-    s.opOk env sub op = true := by
-  cases op with
-  | deliver j =>
-    simp only [Sys.opOk0] at hok
-    simp only [Sys.opOk, hok, Bool.true_and]
-    cases hj : s.net[j]? with
-    | none => rfl
-    | some p => simp only [deliver_ok_without_compression env hdec h j p hj, Bool.or_true]
-  | deliverH now j =>
-    simp only [Sys.opOk0] at hok
-    simp only [Sys.opOk, hok, Bool.true_and]
-    cases hj : s.net[j]? with
-    | none => rfl
-    | some p => simp only [deliver_ok_without_compression env hdec h j p hj, Bool.or_true]
-  | _ => exact hok
-
-theorem runOk_of_runOk0 (env : Env) (hl : EnvLaws env) (hdec : ∀ b, ∃ x, env.decompress b = .ok x)
-    (sub : Nat) (ci : Cipher) (size : Nat) (hsz : 1 ≤ size) (start : Nat) :
-    ∀ (ops : List SysOp) (s : Sys) (ch : Chan), Good env sub ci size start s ch → Sys.runOk0 env sub s ops = true →
-      Sys.runOk env sub s ops = true := by
-  intro ops
-  induction ops with
-  | nil => intro s ch _ _; rfl
-  | cons op ops ih =>
-    intro s ch h hok
-    simp only [Sys.runOk0, Bool.and_eq_true] at hok
-    have h1 := opOk_of_opOk0 env hdec h.cpl op hok.1
-    obtain ⟨hg, _⟩ := good_step env hl sub ci size hsz start s ch op h h1
-    simp only [Sys.runOk, h1, Bool.true_and]
-    exact ih _ _ hg hok.2
 
 theorem out_prefix_of_inv (ci : Cipher) (start : Nat) (ch : Chan) (hS : SndInv ci start ch.s) (hR : RcvInv ci start ch) :
     ch.r.core.reasm.out <+: ch.s.sent := delivered_prefix_sent ci start ch hS hR
@@ -1384,7 +1323,7 @@ theorem fresh_good (env : Env) (sub : Nat) (hsub : sub ≤ env.s.maxSubstreamId)
       rrel := ⟨rfl, hq.symm, fun _ => ⟨hf.symm, fun _ => ⟨_, replicate_get _ _ _ hn, rfl⟩⟩⟩
       bcipher := by simp only [cipherOf, Sys.fresh, a, b, Conn.new, replicate_get _ _ _ hn]
       nrel := rfl }
-  exact ⟨hcpl, hi.1, hi.2, fun p hp => by simp [resendsOf, Sys.fresh, a, Conn.new, Conn.login] at hp⟩
+  exact ⟨hcpl, hi.1, hi.2, trivial, fun p hp => by simp [resendsOf, Sys.fresh, a, Conn.new, Conn.login] at hp⟩
 
 end Nx.L1
 
@@ -1444,7 +1383,7 @@ theorem fresh_good_login (env : Env) (sub : Nat) (hsub : sub ≤ env.s.maxSubstr
         simp only [cipherOf, hca, hcb]
         rfl
       nrel := rfl }
-  exact ⟨hcpl, hi.1, hi.2, fun p hp => by simp [resendsOf, Sys.fresh, a, Conn.new, Conn.login] at hp⟩
+  exact ⟨hcpl, hi.1, hi.2, trivial, fun p hp => by simp [resendsOf, Sys.fresh, a, Conn.new, Conn.login] at hp⟩
 
 end Nx.L1
 
@@ -1498,7 +1437,7 @@ theorem good_of_established (sub start : Nat) (a b : Conn) (h : Established sub 
         show cipherOf b sub = cipherOf a sub
         simp only [cipherOf, hsa, hsb, Option.map, Option.getD, hk, h.con]
       nrel := rfl }
-  refine ⟨hcpl, hi.1, hi.2, ?_⟩
+  refine ⟨hcpl, hi.1, hi.2, trivial, ?_⟩
   intro p hp hr
   have hp' : p ∈ resendsOf a := hp
   rcases h.idle with h0 | h0
